@@ -637,6 +637,19 @@ impl Exec {
                 self.eval(kfp, false);
             }
         }
+        if self.on(9) {
+            if let Some((pb, pp, m)) = prev {
+                // a position and its successor are two different positions
+                self.stats.evals += 1;
+                if pb.get_hash() == b.get_hash() {
+                    return Err(viol(
+                        "C09",
+                        "sibling/same_hash/successor",
+                        format!("{} and its successor by {} both hash to {:016x} ({})", pp.fen(), m.uci(), b.get_hash(), path),
+                    ));
+                }
+            }
+        }
         if self.on(6) {
             c06_fen(b, p)?;
             let partial = p.castle != [false; 4] && p.castle != [true; 4];
